@@ -84,6 +84,16 @@ func (em *emuEmitter) accesses(e ast.Node, out *[]string) {
 					}
 					return false
 				}
+				// a write to the port: e.port.Write(...)
+				if ps, ok := sel.X.(*ast.SelectorExpr); ok && sel.Sel.Name == "Write" && ps.Sel.Name == "port" {
+					if id, ok := ps.X.(*ast.Ident); ok && id.Name == em.recv {
+						for _, a := range v.Args {
+							em.accesses(a, out)
+						}
+						*out = append(*out, "Act APort")
+						return false
+					}
+				}
 				if loc, ok := em.fieldOf(sel.X); ok {
 					for _, a := range v.Args {
 						em.accesses(a, out)
